@@ -85,6 +85,37 @@ def _classify_loop(ctx, lib, b, S, comp, trans):
             _has_cycle_avoiding(b, comp, p["bb"])
         if leaves and not inner:
             return "pull-driven"
+    # (a') index-driven: the loop contains a checked read `slice.get(i)` whose None arm leaves the loop, every path around the
+    #      loop passes that read, and i is a counter stepped by a positive constant on every path round the loop (so it reaches slice.len())
+    gets = [s for s in S.calls if s["vw"].body is b and s["bb"] in comp and core.callee_base(s["key"]) == "core::slice::get"]
+    for g in gets:
+        sw = switches_on(S.root, lambda d: d[0] == "discr" and d[1][0] == "call" and d[1][3] == (b.path, g["bb"]))
+        if len(sw) != 1:
+            continue
+        some, none = opt_arms(sw[0][1])
+        if none in comp and (b.reach(none) & {g["bb"]}):
+            continue
+        if _has_cycle_avoiding(b, comp, g["bb"]):
+            continue
+        idx = g["args"][1]
+        cl = {x[1] for x in core.walk(idx) if x[0] == "loop"}
+        if idx[0] != "phi" or len(cl) != 1:
+            continue
+        cl = cl.pop()
+        upd, okc = [], True
+        for bi, si, st in b.stmts():
+            if st["k"] == "assign" and not st["lhs"]["proj"] and st["lhs"]["local"] == cl and bi in comp:
+                t = pnorm(S.root.T.rvalue(st["rv"]))
+                if t[0] == "field" and t[1][0] == "ovf":
+                    t = t[1]
+                # (termination needs a strictly positive constant step, not exactly one)
+                if t[0] in ("bin", "ovf") and t[1] == "Add" and any(x[0] == "const" and isinstance(x[1], int) and not isinstance(x[1], bool)
+                                                                     and x[1] >= 1 for x in (t[2], t[3])):
+                    upd.append(bi)
+                else:
+                    okc = False
+        if okc and upd and g["bb"] not in b.reach(some, avoid_blocks=upd):
+            return "index-driven"
     # (b) the fail walk of a transition function
     if b.path in trans:
         v = trans[b.path]
